@@ -281,7 +281,7 @@ def run(ctx):
     finally:
         rec.uninstall()
     for i, c in enumerate(plan[nrec:]):
-        for r in ((0, 1) if (ctx.tier == "thorough" or c["n"] < 4) else (i % 2,)):
+        for r in ((0, 1, 2) if ctx.tier == "thorough" else ((0, 1) if c["n"] < 4 else (i % 3,))):
             ctx.case(("cond", c["n"], str(c["par"]), str(c["hist"]), r))
             replay_case(ctx, c, r, rnd)
     good = validate_lineages(ctx, rec.trace_list(), "replays")
